@@ -515,6 +515,11 @@ impl Writer {
                 // switch to new merge data file if we exceed the max file size
                 merge_pos += nbytes;
                 if merge_pos > self.ctx.conf.max_file_size {
+                    // the finished pair of merge files must be durable before any merged file is removed
+                    if let SyncStrategy::Always = self.ctx.conf.sync {
+                        merge_datafile_writer.get_ref().sync_all()?;
+                        merge_hintfile_writer.sync()?;
+                    }
                     merge_fileid += 1;
                     merge_pos = 0;
                     merge_datafile_writer =
@@ -523,6 +528,14 @@ impl Writer {
                         LogWriter::new(log::create(utils::hintfile_name(path, merge_fileid))?)?;
                     debug!(merge_fileid, "new merge file");
                 }
+            }
+            // With the "always" strategy every acknowledged write is on stable storage. The copies
+            // made above are about to become the only copies, so they have to be there as well
+            // before the files they were copied from are removed.
+            if let SyncStrategy::Always = self.ctx.conf.sync {
+                merge_datafile_writer.flush()?;
+                merge_datafile_writer.get_ref().sync_all()?;
+                merge_hintfile_writer.sync()?;
             }
         }
 
